@@ -219,6 +219,9 @@ def make_constructed(case):
 
 def cases(tier, seed):
     for c in families.struct_cases(tier, seed):
-        yield c
-        if constructible(c["T"]) and (tier != "quick" or "|" not in c["label"] or c["cfg"]["endian"] == "<"):
+        two = "|" in c["label"]
+        # the compiled reader on 2-member definitions is C02/C03's subject; here one reader suffices for them
+        if not (tier == "quick" and two and c["cfg"]["compiled"]):
+            yield c
+        if constructible(c["T"]) and (tier != "quick" or not two or c["cfg"]["endian"] == "<"):
             yield dict(c, make="make_constructed", label=c["label"] + "#ctor")
